@@ -28,6 +28,18 @@ def gen_constraint(rng, extra, substr=False):
         groups.append(rng.choice([",", ", ", " ,"]).join(clauses))
     return rng.choice([" || ", "||", " | "]).join(groups)
 
+def subset_pair(rng, extra):
+    """one operand's clauses are a strict subset of the other's: groups of '!=' (a conjunction) or alternatives of '==' (a union), of
+    unequal length, in either order - where a shortcut that compares sizes takes the wrong side"""
+    k = rng.choice([2, 3, 3, 4]); big = rng.sample(ALPHA, k); small = rng.sample(big, rng.randint(1, k - 1))
+    if rng.random() < 0.3: rng.shuffle(small)
+    if rng.random() < 0.6:
+        f = lambda vs: rng.choice([",", ", "]).join("!=" + v for v in vs)
+    else:
+        f = lambda vs: rng.choice([" || ", "||"]).join(rng.choice(["==", ""]) + v for v in vs)
+    a, b = f(big), f(small)
+    return (a, b) if rng.random() < 0.5 else (b, a)
+
 def iparse(s, extra):
     from poetry.core.constraints.generic import parse_constraint, parse_extra_constraint
     try:
@@ -125,6 +137,8 @@ def run(tier):
         extra = i % 3 == 0
         substr = (not extra) and i % 5 == 0
         sa, sb = gen_constraint(rng, extra, substr), gen_constraint(rng, extra, substr)
+        if i % 10 == 7 and not substr:
+            sa, sb = subset_pair(rng, extra); R.count("subset_pairs")
         a, b = iparse(sa, extra), iparse(sb, extra)
         probes = SUBSETS if extra else PROBES
         x = "1" if extra else "0"
